@@ -93,6 +93,8 @@ def mixed_program(rng, u, depth=0, allow_pos=True, size=None, macros=None, comme
             else:
                 k = nf if rng.random() < 0.85 else rng.randint(0, nf)
                 items.append(pp.use(name, [actual() for _ in range(max(1, k))]))
+            if items[-1]["k"] == "use" and items[-1]["a"] and rng.random() < 0.2:
+                items[-1]["sp"] = True          # white space between the macro name and its argument list
             if comments and rng.random() < 0.3:
                 items.append(pp.cmt(" after use "))
         elif r < 0.90 and depth < 2:
